@@ -1480,6 +1480,7 @@ package serf
 //@       same(s.aliveNodes, old(s.aliveNodes)) && forall(func(k string) bool { return snapMemory(s, k) == old(snapMemory(s, k)) && mapAt(s.aliveNodes, k) == old(mapAt(s.aliveNodes, k)) })
 //@ end
 //@ func (s *Snapshotter) tryAppend(l string)
+//@   logcalls snapappend
 //@   requires wf: wfSnap(s)
 //@   ensures handles_never_nil [C12]: wfSnap(s)
 //@   ensures memory_untouched [C12]: s.lastClock == old(s.lastClock) && s.lastEventClock == old(s.lastEventClock) && s.lastQueryClock == old(s.lastQueryClock) &&
@@ -1487,12 +1488,15 @@ package serf
 //@ end
 // the change is in memory whatever the file operations did
 //@ func (s *Snapshotter) processUserEvent(e UserEvent)
+//@   logcalls snapuser
 //@   requires wf: wfSnap(s)
 //@   ensures handles_never_nil [C12]: wfSnap(s)
 //@   ensures recorded_in_memory [C12,C14]: s.lastEventClock == ite(e.LTime > old(s.lastEventClock), e.LTime, old(s.lastEventClock))
 //@ end
 //@ func (s *Snapshotter) processQuery(q *Query)
-//@   requires wf: wfSnap(s) && q != nil
+//@   logcalls snapquery
+//@   requires wf: wfSnap(s)
+//@   requires query: q != nil
 //@   ensures handles_never_nil [C12]: wfSnap(s)
 //@   ensures recorded_in_memory [C12,C14]: s.lastQueryClock == ite(q.LTime > old(s.lastQueryClock), q.LTime, old(s.lastQueryClock))
 //@ end
@@ -1502,6 +1506,7 @@ package serf
 //@   ensures clock_only_grows [C12]: s.lastClock >= old(s.lastClock)
 //@ end
 //@ func (s *Snapshotter) processMemberEvent(e MemberEvent)
+//@   logcalls snapmember
 //@   requires wf: wfSnap(s)
 //@   ensures handles_never_nil [C12]: wfSnap(s)
 //@   ensures joined_in_memory [C12]: e.Type == EventMemberJoin ==> forall(func(i int) bool { return 0 <= i && i < len(e.Members) ==> snapMemory(s, e.Members[i].Name) })
@@ -1636,5 +1641,84 @@ package serf
 //@ end
 // events that carry a query carry a non-nil one
 //@ pure func wfEventValue(e Event) bool { q, ok := e.(*Query); return ok ==> q != nil }
+
+// ---------------------------------------------------------------- a graceful leave is remembered (C13): the recorder
+// Once a leave has been issued the recorder writes the leave marker, forgets the members it knew unless the node is
+// configured to rejoin after a leave, and from then on records no membership, user-event or query event (clock lines
+// only). Stated for the recorder loop started in an arbitrary state: whatever it does from a state in which a leave
+// has already been issued, and what the leave step itself does.
+//@ pure func forgotten(s *Snapshotter) bool { return forall(func(k string) bool { return !mapHas(s.aliveNodes, k) }) }
+//@ pure func leaveRemembered(s *Snapshotter) bool { return s.leaving && !s.rejoinAfterLeave ==> forgotten(s) }
+//@ func (s *Snapshotter) stream()
+//@   requires wf: wfSnap(s) && s.logger != nil && s.streamCh != nil && s.leaveCh != nil && s.waitCh != nil && !closed(s.waitCh) && distinctRefs(s.leaveCh, s.shutdownCh)
+//@   requires left_means_forgotten: leaveRemembered(s)
+//@   requires queued_events_wellformed: forall(func(j int) bool { return j >= recvN(s.streamCh) ==> wfEventValue(recvAt(s.streamCh, j)) })
+//@   oldlet lv0 := s.leaving
+//@   oldlet m0 := callNOf("snapmember")
+//@   oldlet u0 := callNOf("snapuser")
+//@   oldlet q0 := callNOf("snapquery")
+//@   oldlet a0 := callNOf("snapappend")
+//@   oldlet l0 := recvN(s.leaveCh)
+//@   oldlet rej := s.rejoinAfterLeave
+//@   ensures left_means_forgotten [C13]: leaveRemembered(s)
+//@   ensures leaving_is_final [C13]: lv0 ==> s.leaving
+//@   ensures nothing_recorded_after_leave [C13]: lv0 ==> callNOf("snapmember") == m0 && callNOf("snapuser") == u0 && callNOf("snapquery") == q0
+//@   ensures leave_request_marks_the_snapshot [C13]: recvN(s.leaveCh) > l0 ==> s.leaving && exists(func(k int) bool { return witness(k) && a0 <= k && k < callNOf("snapappend") && callStrOf("snapappend", k) == "leave\n" })
+//@   ensures rejoin_setting_untouched [C13]: s.rejoinAfterLeave == rej
+//@   loop 1 invariant wf [C13]: wfSnap(s) && !closed(s.waitCh) && s.rejoinAfterLeave == rej
+//@   loop 1 invariant left_means_forgotten [C13]: leaveRemembered(s)
+//@   loop 1 invariant leaving_is_final [C13]: lv0 ==> s.leaving
+//@   loop 1 invariant nothing_recorded_after_leave [C13]: lv0 ==> callNOf("snapmember") == m0 && callNOf("snapuser") == u0 && callNOf("snapquery") == q0
+//@   loop 1 invariant counters [C13]: recvN(s.leaveCh) >= l0 && a0 <= callNOf("snapappend")
+//@   loop 1 invariant leave_request_sets_leaving [C13]: recvN(s.leaveCh) > l0 ==> s.leaving
+//@   loop 1 invariant leave_request_marks_the_snapshot [C13]: recvN(s.leaveCh) > l0 ==> exists(func(k int) bool { return witness(k) && a0 <= k && k < callNOf("snapappend") && callStrOf("snapappend", k) == "leave\n" })
+//@   loop 1 invariant queued_events_wellformed [C13]: forall(func(j int) bool { return j >= recvN(s.streamCh) ==> wfEventValue(recvAt(s.streamCh, j)) })
+//@   loop 2 invariant wf [C13]: wfSnap(s) && !closed(s.waitCh) && s.rejoinAfterLeave == rej
+//@   loop 2 invariant left_means_forgotten [C13]: leaveRemembered(s)
+//@   loop 2 invariant leaving_is_final [C13]: lv0 ==> s.leaving
+//@   loop 2 invariant nothing_recorded_after_leave [C13]: lv0 ==> callNOf("snapmember") == m0 && callNOf("snapuser") == u0 && callNOf("snapquery") == q0
+//@   loop 2 invariant counters [C13]: recvN(s.leaveCh) >= l0 && a0 <= callNOf("snapappend")
+//@   loop 2 invariant leave_request_sets_leaving [C13]: recvN(s.leaveCh) > l0 ==> s.leaving
+//@   loop 2 invariant leave_request_marks_the_snapshot [C13]: recvN(s.leaveCh) > l0 ==> exists(func(k int) bool { return witness(k) && a0 <= k && k < callNOf("snapappend") && callStrOf("snapappend", k) == "leave\n" })
+//@   loop 2 invariant queued_events_wellformed [C13]: forall(func(j int) bool { return j >= recvN(s.streamCh) ==> wfEventValue(recvAt(s.streamCh, j)) })
+//@ end
+
+// ---------------------------------------------------------------- a graceful leave is remembered (C13): the replay
+// What replay reads are lines handed back by the buffered reader (a logged library call; the bytes on disk and the
+// reader are outside the verified code). A line is a leave marker when, stripped of its newline, it has none of the
+// record prefixes tested before it and equals "leave" -- exactly the tests replay applies, in its order.
+//@ import "bufio"
+//@ func (b *bufio.Reader) ReadString(delim byte) (line string, err error)
+//@   trusted
+//@   logcalls snapline
+//@   assigns
+//@   ensures a_line_ends_with_its_delimiter: err == nil ==> len(line) >= 1
+//@ end
+//@ pure func stripped(l string) string { return l[:len(l)-1] }
+//@ pure func isAliveLine(l string) bool { _, ok := strings.CutPrefix(l, "alive: "); return ok }
+//@ pure func isLeaveLine(l string) bool {
+//@   _, a := strings.CutPrefix(l, "alive: ")
+//@   _, n := strings.CutPrefix(l, "not-alive: ")
+//@   _, c := strings.CutPrefix(l, "clock: ")
+//@   _, e := strings.CutPrefix(l, "event-clock: ")
+//@   _, q := strings.CutPrefix(l, "query-clock: ")
+//@   return !a && !n && !c && !e && !q && !strings.HasPrefix(l, "coordinate: ") && l == "leave"
+//@ }
+// a leave marker that no later member record follows leaves nothing to rejoin (unless rejoin-after-leave is set)
+//@ pure func leaveHonoured(s *Snapshotter, lo int, hi int) bool {
+//@   return forall(func(j int) bool { return lo <= j && j < hi && len(callResStrOf("snapline", j)) >= 1 && isLeaveLine(stripped(callResStrOf("snapline", j))) && !s.rejoinAfterLeave &&
+//@     forall(func(m int) bool { return witness(m) && j < m && m < hi ==> !isAliveLine(stripped(callResStrOf("snapline", m))) }) ==> forgotten(s) })
+//@ }
+//@ func (s *Snapshotter) replay() (err error)
+//@   requires wf: wfSnap(s) && s.logger != nil
+//@   oldlet c0 := callNOf("snapline")
+//@   oldlet rej := s.rejoinAfterLeave
+//@   let n1 := callNOf("snapline")
+//@   ensures leave_marker_clears_the_rejoin_set [C13]: leaveHonoured(s, c0, n1-1)
+//@   ensures rejoin_setting_untouched [C13]: s.rejoinAfterLeave == rej
+//@   loop 1 invariant lines_so_far [C13]: wfSnap(s) && s.rejoinAfterLeave == rej && c0 <= callNOf("snapline") &&
+//@       forall(func(j int) bool { return c0 <= j && j < callNOf("snapline") ==> callRetOf("snapline", j) })
+//@   loop 1 invariant leave_marker_clears_the_rejoin_set [C13]: leaveHonoured(s, c0, callNOf("snapline"))
+//@ end
 
 // END-OF-CONTRACTS
